@@ -275,7 +275,7 @@ def gen_tl(rs, names: List[str], n: Optional[int] = None, must: Optional[List[st
     terms = [gen_term(rs, names, must) for _ in range(n)]
     if shapes and terms and rs.random() < 0.45:
         # adversarial shapes: duplicates, parallel rows, opposite rows, boxes
-        kind = rs.choice(["dup", "parallel", "opposite", "box", "scaled", "difference", "difference", "difference", "corner", "single", "near", "partial_parallel", "ladder", "fork", "fork"])
+        kind = rs.choice(["dup", "parallel", "opposite", "box", "scaled", "difference", "difference", "difference", "corner", "single", "near", "partial_parallel", "ladder", "fork", "fork", "tight_contradiction"])
         t = rs.choice(terms)
         cf = {k: float.fromhex(v[1]) for k, v in t["T"]}
         c0 = float.fromhex(t["c"][1])
@@ -287,6 +287,15 @@ def gen_tl(rs, names: List[str], n: Optional[int] = None, must: Optional[List[st
             terms.append(lit_term({k: -v for k, v in cf.items()}, rs.choice([c0, -c0, 0.0, 3.0])))
         elif kind == "scaled":
             terms.append(lit_term({k: 2.0 * v for k, v in cf.items()}, 2.0 * c0))
+        elif kind == "tight_contradiction":
+            # an ordering cycle that is infeasible by less than 1: p <= q <= r <= 0 and p >= m with 0 < m < 1; redundancy tests
+            # that relax a bound by one unit do not notice it, an elimination that rewrites a row does
+            if len(names) >= 3:
+                p_, q_, r_ = rs.sample(names, 3)
+                m_ = float(rs.choice([0.5, 0.25, 0.75]))
+                rows = [lit_term({p_: 1.0, q_: -1.0}, 0.0), lit_term({q_: 1.0, r_: -1.0}, 0.0), lit_term({r_: 1.0}, 0.0), lit_term({p_: -1.0}, -m_)]
+                rs.shuffle(rows)
+                return {"TL": rows + (terms[:1] if rs.random() < 0.3 else [])}
         elif kind == "fork":
             # two ordering chains from one root: r <= a1 <= a2 (nothing bounds a2: a dead end) and r <= b1 <= k (k is an anchor);
             # the working candidate row is the LAST one, the root itself is bounded by a one-variable row elsewhere
